@@ -1,10 +1,18 @@
 ---- MODULE JsonParse ----
-EXTENDS Integers, Sequences, Bytes
+EXTENDS Integers, Sequences, Bytes, Codec
 \* Parses a sequence of code points into the abstract value of JsonVal.tla.
 \* Result of every parser: [ok, v, p]  (p = next position). Modelled subset: integers, and decimal fractions in
 \* the canonical form of the shortest round-trip representation with at most 15 significant digits (their
 \* value IS their literal: [t |-> "float", s |-> literal]); exponents and other fractions are unspecified
 \* (reported as [ok |-> FALSE, unspec |-> TRUE]); everything else is total.
+\* Other number literals (exponents, more digits, trailing zeros) denote what the platform's float() makes of them:
+\* the harness ships that as a table Tables["_"].flt = <<[l |-> literal, r |-> shortest representation]>>
+\* (trusted, like the codec tables); a literal that is not in the table is unspecified. The constants
+\* Infinity / -Infinity (what the library itself writes for a non-finite number) are read back as such; NaN is
+\* unspecified.
+FltTable == IF "_" \in DOMAIN Tables THEN (IF "flt" \in DOMAIN Tables["_"] THEN Tables["_"].flt ELSE <<>>) ELSE <<>>
+FltLookup(lit) == LET idx == {i \in 1..Len(FltTable) : FltTable[i].l = lit} IN
+                  IF idx = {} THEN <<>> ELSE FltTable[CHOOSE i \in idx : TRUE].r
 V(t, s, n, neg, items) == [t |-> t, s |-> s, n |-> n, neg |-> neg, items |-> items]
 Fail(p) == [ok |-> FALSE, unspec |-> FALSE, v |-> V("null", <<>>, 0, FALSE, <<>>), p |-> p]
 Unspec(p) == [ok |-> FALSE, unspec |-> TRUE, v |-> V("null", <<>>, 0, FALSE, <<>>), p |-> p]
@@ -45,26 +53,33 @@ StrBody(s, p, acc) ==      \* p is after the opening quote
         [] OTHER -> Fail(p)
 RECURSIVE Digits(_,_,_,_)
 Digits(s, p, acc, cnt) == IF p <= Len(s) /\ IsDigit(s[p]) THEN Digits(s, p + 1, acc * 10 + (s[p] - 48), cnt + 1) ELSE [n |-> acc, p |-> p, cnt |-> cnt]
+Lit(s, p, word, v) == IF p + Len(word) - 1 <= Len(s) /\ SubSeq(s, p, p + Len(word) - 1) = word THEN Ok(v, p + Len(word)) ELSE Fail(p)
+RECURSIVE SkipDigits(_,_)
+SkipDigits(s, p) == IF p <= Len(s) /\ IsDigit(s[p]) THEN SkipDigits(s, p + 1) ELSE p
+CanonFrac(ip, fp) ==
+  LET lead == IF \E k \in 1..Len(fp) : fp[k] # 48 THEN (CHOOSE k \in 1..Len(fp) : fp[k] # 48 /\ \A m \in 1..(k-1) : fp[m] = 48) - 1 ELSE Len(fp) IN
+  /\ Len(ip) + Len(fp) <= 15
+  /\ (fp[Len(fp)] # 48 \/ fp = <<48>>)
+  /\ (ip = <<48>> => (fp = <<48>> \/ lead < 4))
 Num(s, p) ==
   LET neg == s[p] = 45
       q == IF neg THEN p + 1 ELSE p IN
-  IF q > Len(s) \/ ~IsDigit(s[q]) THEN Fail(p)
-  ELSE LET d == IF s[q] = 48 THEN [n |-> 0, p |-> q + 1, cnt |-> 1] ELSE Digits(s, q, 0, 0) IN
-       IF d.p <= Len(s) /\ s[d.p] \in {101, 69} THEN Unspec(p)          \* exponent
-       ELSE IF d.p <= Len(s) /\ s[d.p] = 46 THEN
-         LET f == Digits(s, d.p + 1, 0, 0)
-             ip == SubSeq(s, q, d.p - 1)  fp == SubSeq(s, d.p + 1, f.p - 1)
-             lead == IF \E k \in 1..Len(fp) : fp[k] # 48 THEN (CHOOSE k \in 1..Len(fp) : fp[k] # 48 /\ \A m \in 1..(k-1) : fp[m] = 48) - 1 ELSE Len(fp) IN
-         IF f.cnt = 0 THEN Fail(p)
-         ELSE IF f.p <= Len(s) /\ s[f.p] \in {101, 69} THEN Unspec(p)
-         ELSE IF /\ Len(ip) + Len(fp) <= 15
-                 /\ (fp[Len(fp)] # 48 \/ fp = <<48>>)
-                 /\ (ip = <<48>> => (fp = <<48>> \/ lead < 4))
-              THEN Ok(V("float", SubSeq(s, p, f.p - 1), 0, FALSE, <<>>), f.p)
-              ELSE Unspec(p)
-       ELSE IF d.cnt > 9 THEN Unspec(p)                                \* beyond 32-bit model range
-       ELSE Ok(V("int", <<>>, d.n, neg /\ d.n # 0, <<>>), d.p)
-Lit(s, p, word, v) == IF p + Len(word) - 1 <= Len(s) /\ SubSeq(s, p, p + Len(word) - 1) = word THEN Ok(v, p + Len(word)) ELSE Fail(p)
+  IF neg /\ q <= Len(s) /\ s[q] = 73 THEN Lit(s, p, <<45,73,110,102,105,110,105,116,121>>, V("float", <<45,105,110,102>>, 0, FALSE, <<>>))
+  ELSE IF q > Len(s) \/ ~IsDigit(s[q]) THEN Fail(p)
+  ELSE LET ie == IF s[q] = 48 THEN q + 1 ELSE SkipDigits(s, q)          \* end of the integer part
+           hasF == ie <= Len(s) /\ s[ie] = 46
+           fe == IF hasF THEN SkipDigits(s, ie + 1) ELSE ie
+           hasE == fe <= Len(s) /\ s[fe] \in {101, 69}
+           es == IF hasE /\ fe + 1 <= Len(s) /\ s[fe + 1] \in {43, 45} THEN fe + 2 ELSE fe + 1
+           ee == IF hasE THEN SkipDigits(s, es) ELSE fe
+           lit == SubSeq(s, p, ee - 1) IN
+       IF hasF /\ fe = ie + 1 THEN Fail(p)                              \* "1."  : no digit after the point
+       ELSE IF hasE /\ ee = es THEN Fail(p)                             \* "1e"  : no digit in the exponent
+       ELSE IF ~hasF /\ ~hasE THEN
+            (IF ie - q > 9 THEN Unspec(p)                               \* beyond 32-bit model range
+             ELSE LET d == Digits(s, q, 0, 0) IN Ok(V("int", <<>>, d.n, neg /\ d.n # 0, <<>>), ie))
+       ELSE IF ~hasE /\ CanonFrac(SubSeq(s, q, ie - 1), SubSeq(s, ie + 1, fe - 1)) THEN Ok(V("float", lit, 0, FALSE, <<>>), ee)
+       ELSE LET r == FltLookup(lit) IN IF r = <<>> THEN Unspec(p) ELSE Ok(V("float", r, 0, FALSE, <<>>), ee)
 RECURSIVE Value(_,_), Elems(_,_,_), Members(_,_,_)
 Value(s, p0) ==
   LET p == SkipWs(s, p0) IN
@@ -79,7 +94,8 @@ Value(s, p0) ==
       [] c = 102 -> Lit(s, p, <<102,97,108,115,101>>, V("false", <<>>, 0, FALSE, <<>>))
       [] c = 110 -> Lit(s, p, <<110,117,108,108>>, V("null", <<>>, 0, FALSE, <<>>))
       [] c = 45 \/ IsDigit(c) -> Num(s, p)
-      [] c \in {78, 73} -> Unspec(p)          \* NaN / Infinity extensions
+      [] c = 73 -> Lit(s, p, <<73,110,102,105,110,105,116,121>>, V("float", <<105,110,102>>, 0, FALSE, <<>>))   \* what the library writes for inf
+      [] c = 78 -> Unspec(p)                  \* NaN
       [] OTHER -> Fail(p)
 Elems(s, p, acc) ==
   LET r == Value(s, p) IN
